@@ -663,6 +663,42 @@ def extract_collects_all_new_evolutions(repo):
     return False
 
 
+def extract_attr_load(repo):
+    """FieldSignature.deserialize, the loop over the tracked attribute names: an attribute is loaded when its key
+    (or its alias) is IN the stored dictionary - not when the fetched value happens to be non-None.
+    Returns (by_presence, aliases)"""
+    tree = ast.parse(_src(repo, 'django_evolution/signature.py'))
+    cls = _find_class(tree, 'FieldSignature')
+    fn = _find_func(cls, 'deserialize')
+    loop = None
+    for n in ast.walk(fn):
+        if isinstance(n, ast.For) and '_iter_attrs_for_field_type' in ast.unparse(n.iter):
+            loop = n
+    if loop is None:
+        raise ExtractError('FieldSignature.deserialize has no loop over _iter_attrs_for_field_type')
+    attr = loop.target.id if isinstance(loop.target, ast.Name) else None
+    by_presence = False
+    for st in loop.body:
+        if isinstance(st, ast.If):
+            # if alias and alias in D: ... elif attr in D: ... else: continue
+            t1 = ast.unparse(st.test)
+            if ' in field_sig_attrs' in t1 and len(st.orelse) == 1 and isinstance(st.orelse[0], ast.If):
+                t2 = ast.unparse(st.orelse[0].test)
+                last = st.orelse[0].orelse
+                if t2 == '%s in field_sig_attrs' % attr and last and isinstance(last[-1], ast.Continue):
+                    by_presence = True
+    none_test = any(isinstance(n, ast.Compare) and isinstance(n.ops[0], (ast.Is, ast.Eq)) and
+                    isinstance(n.comparators[0], ast.Constant) and n.comparators[0].value is None
+                    for st in loop.body for n in ast.walk(st))
+    aliases = []
+    for n in cls.body:
+        if isinstance(n, ast.Assign) and any(isinstance(t, ast.Name) and t.id == '_ATTRIBUTE_ALIASES' for t in n.targets) \
+                and isinstance(n.value, ast.Dict):
+            for k, v in zip(n.value.keys, n.value.values):
+                aliases.append((ast.literal_eval(k), ast.literal_eval(v)))
+    return by_presence and not none_test, aliases
+
+
 def extract_optimizer_copies(repo):
     """AppMutator._preprocess_mutations rebinds `mutations` to a deep copy before anything else uses it"""
     tree = ast.parse(_src(repo, 'django_evolution/mutators/app_mutator.py'))
@@ -757,6 +793,14 @@ def regenerate(repo, outdir):
     parts.append('')
     parts.append('/-- how change_meta_unique_together / change_meta_index_together iterate over their entries -/')
     parts.append('def togetherIteration : String := ' + lean_str(titer))
+    abp, aliases = extract_attr_load(repo)
+    flags['attr_load_by_presence'] = abp
+    parts.append('')
+    parts.append('/-- FieldSignature.deserialize loads an attribute when its key is in the stored dictionary -/')
+    parts.append('def attrLoadByPresence : Bool := ' + ('true' if abp else 'false'))
+    parts.append('/-- `FieldSignature._ATTRIBUTE_ALIASES` -/')
+    parts.append('def attrAliases : List (String × String) := ' + lean_list(
+        '(%s, %s)' % (lean_str(k), lean_str(v)) for k, v in aliases))
     ado = extract_attr_default_order(repo)
     flags['attr_default_type_first'] = ado
     parts.append('')
